@@ -245,6 +245,18 @@ func (f *FS) List() []string {
 	return r
 }
 
+// Files returns the current contents of all files. The slices alias the file
+// system's storage: valid only until the calling task continues.
+func (f *FS) Files() map[string][]byte {
+	out := make(map[string][]byte, len(f.nodes))
+	for p, n := range f.nodes {
+		if !n.dir {
+			out[p] = n.data
+		}
+	}
+	return out
+}
+
 // OpenHandles returns the names of handles that are open now.
 func (f *FS) OpenHandles() []string {
 	var r []string
@@ -321,6 +333,11 @@ func Attach(w *simrt.World, f *FS) { w.FS = f }
 // do runs one file-system op as a yield point. apply runs on the scheduler
 // goroutine; it returns whether the op failed.
 func (f *FS) do(kind OpKind, path, path2 string, off int64, n int, data []byte, apply func(torn int) error) error {
+	return f.doOff(kind, path, path2, off, nil, n, data, apply)
+}
+
+// doOff is do with the offset computed on the scheduler side (O_APPEND writes).
+func (f *FS) doOff(kind OpKind, path, path2 string, off int64, effOff func() int64, n int, data []byte, apply func(torn int) error) error {
 	var err error
 	var lat int64
 	w := simrt.Current()
@@ -331,6 +348,9 @@ func (f *FS) do(kind OpKind, path, path2 string, off int64, n int, data []byte, 
 	op := &simrt.Op{Kind: kind.String()}
 	op.Apply = func() {
 		rec := OpRec{Seq: f.seq, Mut: -1, Task: task, Kind: kind, Path: path, Path2: path2, Off: off, N: n, PC: op.PC}
+		if effOff != nil {
+			rec.Off = effOff()
+		}
 		if w != nil {
 			rec.Now = w.Now()
 		}
@@ -699,7 +719,13 @@ func (f *File) Write(b []byte) (int, error) {
 		return 0, fs.ErrInvalid
 	}
 	var n int
-	err := f.fsys.do(OpWrite, f.path, "", f.off, len(b), b, func(torn int) error {
+	effOff := func() int64 {
+		if f.flag&O_APPEND != 0 && !f.closed {
+			return int64(len(f.ino.data))
+		}
+		return f.off
+	}
+	err := f.fsys.doOff(OpWrite, f.path, "", f.off, effOff, len(b), b, func(torn int) error {
 		if e := f.checkOpen("write"); e != nil {
 			return e
 		}
